@@ -39,6 +39,14 @@ struct Plan {
 
 fn plan_for(property: &str) -> Option<Plan> {
   Some(match property {
+    "C16" => Plan {
+      engine: "world",
+      level: "exploration",
+      quick_runs: 4_000,
+      thorough_runs: 400_000,
+      params_quick: &[],
+      params_thorough: &[],
+    },
     "C20" => Plan {
       engine: "res",
       level: "exploration",
